@@ -1,25 +1,35 @@
 package index
 
 // C37 correspondence + oracle: tagsToSections.Convert and ShardBuilder.Add on generated
-// (content, ctags entries) pairs. Mapped into /repo/index by `go test -overlay`.
+// (content, ctags entries) pairs; ShardBuilder.Add on arbitrary section lists; and the tie of
+// coq/Lib/Utf8.v to Go's unicode/utf8. Mapped into /repo/index by `go test -overlay`.
 
 import (
 	"bytes"
 	"fmt"
+	"strings"
 	"testing"
+	"unicode/utf8"
 
 	"github.com/sourcegraph/zoekt"
 	"github.com/sourcegraph/zoekt/internal/ctags"
 )
 
-func vfC37GenContent(r *vfRand) []byte {
-	words := []string{"foo", "bar", "fo", "o", "foobar", "x", "main", "aa", "aaa", "é", "func"}
+var vfC37Words = []string{"foo", "bar", "fo", "o", "foobar", "x", "main", "aa", "aaa", "é", "func", "日本", "😀", "ñé", "\t"}
+
+// stray bytes that make a content invalid UTF-8 (never NUL: Add's binary-file path is outside the model)
+var vfC37Stray = []string{"\x80", "\xbf", "\xc3", "\xe6\x97", "\xf0\x9f\x98", "\xc0\x80", "\xed\xa0\x80", "\xf4\x90\x80\x80", "\xff", "\xe0\x80\x80"}
+
+func vfC37GenContent(r *vfRand, invalid bool) []byte {
 	var b bytes.Buffer
 	nl := r.Intn(7)
 	for i := 0; i < nl; i++ {
 		nw := r.Intn(5)
 		for j := 0; j < nw; j++ {
-			b.WriteString(r.Pick(words))
+			b.WriteString(r.Pick(vfC37Words))
+			if invalid && r.Chance(25) {
+				b.WriteString(r.Pick(vfC37Stray))
+			}
 			if r.Chance(60) {
 				b.WriteByte(' ')
 			}
@@ -34,37 +44,107 @@ func vfC37GenContent(r *vfRand) []byte {
 	return b.Bytes()
 }
 
+// vfC37Add runs ShardBuilder.Add (copies of all inputs) and returns its error; a run-time panic inside Add is
+// recovered and reported as panicked = true. NewShardBuilder is expensive (it pre-sizes for a 100 MB shard), so the
+// builder is reused: Add's verdict on a document's sections does not depend on earlier documents, accepted or not
+// (only rune/byte base offsets move). It is replaced every 256 calls.
+var vfC37Builder *ShardBuilder
+var vfC37BuilderUses int
+
+func vfC37Add(t *testing.T, content []byte, secs []DocumentSection, meta []*zoekt.Symbol) (err error, panicked bool) {
+	if vfC37Builder == nil || vfC37BuilderUses >= 256 {
+		b, berr := NewShardBuilder(&zoekt.Repository{Name: "r"})
+		if berr != nil {
+			t.Fatal(berr)
+		}
+		vfC37Builder, vfC37BuilderUses = b, 0
+	}
+	vfC37BuilderUses++
+	secs2 := append([]DocumentSection(nil), secs...)
+	meta2 := append([]*zoekt.Symbol(nil), meta...)
+	c2 := append([]byte(nil), content...)
+	defer func() {
+		if r := recover(); r != nil {
+			err, panicked = fmt.Errorf("panic: %v", r), true
+		}
+	}()
+	err = vfC37Builder.Add(Document{Name: "f.go", Content: c2, Symbols: secs2, SymbolsMetaData: meta2, Language: "Go"})
+	return
+}
+
+func vfC37Verdict(err error, panicked bool) uint64 {
+	switch {
+	case panicked:
+		return 2
+	case err != nil:
+		return 1
+	}
+	return 0
+}
+
 func TestVerifC37(t *testing.T) {
 	r := vfNewRand(vfSeed())
 	n := vfN(300)
-	names := []string{"foo", "bar", "fo", "o", "foobar", "x", "main", "aa", "aaa", "é", "func", "", "zzz", "oo", "a", "ob", "\n", "o b"}
+	names := []string{"foo", "bar", "fo", "o", "foobar", "x", "main", "aa", "aaa", "é", "func", "", "zzz", "oo", "a", "ob", "\n", "o b", "日", "本", "😀", "é", "�"}
+	badNames := []string{"\xc3", "\xa9", "\xe6\x97", "\x97\xa5", "o\xc3", "\xa9 ", "\xf0\x9f", "\x9f\x98\x80", "\x80", "\xff", "\xe6", "\xa5\xe6"}
 	kinds := []string{"function", "var", "class", ""}
 	var conv tagsToSections // reused across cases: exercises nlsBuf reuse
 	for i := 0; i < n; i++ {
-		content := vfC37GenContent(r)
-		nlines := bytes.Count(content, []byte("\n")) + 1
+		// streams: 0 = well-formed (valid content, valid names); 1 = invalid content, valid names (still inside
+		// the property's domain: the theorem quantifies over ALL contents); 2 = invalid-UTF-8 names (outside the
+		// domain: only the correspondence is checked for Add's verdict).
+		stream := 0
+		if k := r.Intn(100); k >= 85 {
+			stream = 2
+		} else if k >= 70 {
+			stream = 1
+		}
+		content := vfC37GenContent(r, stream >= 1 && r.Chance(80))
+		lines := bytes.Split(content, []byte("\n"))
+		nlines := len(lines)
 		nt := r.Intn(9)
+		if r.Chance(6) {
+			nt = 12 + r.Intn(30) // >= 12 sections: sort.Sort leaves its insertion-sort regime
+		}
 		var tags []*ctags.Entry
 		var ctags_ []string
+		namesValid := true
 		for j := 0; j < nt; j++ {
 			line := r.Intn(nlines+3) - 1
 			if r.Chance(3) {
 				line = -5
 			}
 			name := r.Pick(names)
-			if ls := bytes.Split(content, []byte("\n")); line >= 1 && line <= len(ls) && r.Chance(70) {
+			if line >= 1 && line <= len(lines) && r.Chance(70) {
 				// mostly pick a (sub)word that occurs on the chosen line
-				if l := ls[line-1]; len(l) > 0 {
-					// ctags names reach Convert through go-ctags' JSON decoding, hence are always valid UTF-8:
-					// slice the line on rune boundaries only.
-					rs := []rune(string(l))
-					a := r.Intn(len(rs))
-					b := a + 1 + r.Intn(4)
-					if b > len(rs) {
-						b = len(rs)
+				if l := lines[line-1]; len(l) > 0 {
+					if stream == 2 && r.Chance(50) {
+						// byte-offset slice: may cut a rune in half
+						a := r.Intn(len(l))
+						b := a + 1 + r.Intn(4)
+						if b > len(l) {
+							b = len(l)
+						}
+						name = string(l[a:b])
+					} else {
+						// ctags names reach Convert through go-ctags' JSON decoding, hence are always valid
+						// UTF-8: slice on rune boundaries of the valid parts only.
+						rs := []rune(string(l))
+						a := r.Intn(len(rs))
+						b := a + 1 + r.Intn(4)
+						if b > len(rs) {
+							b = len(rs)
+						}
+						name = string(rs[a:b]) // invalid bytes of l became U+FFFD: name is valid UTF-8
 					}
-					name = string(rs[a:b])
 				}
+			} else if stream == 2 && r.Chance(40) {
+				name = r.Pick(badNames)
+			} else if r.Chance(8) {
+				name = "" // empty names land on the line start
+			}
+			if !utf8.ValidString(name) {
+				namesValid = false
 			}
 			kind := r.Pick(kinds)
 			tags = append(tags, &ctags.Entry{Name: name, Line: line, Kind: kind, Parent: fmt.Sprint("p", j)})
@@ -78,21 +158,15 @@ func TestVerifC37(t *testing.T) {
 		fail := func(what string) {
 			var ts []map[string]any
 			for _, e := range tags {
-				ts = append(ts, map[string]any{"line": e.Line, "name": e.Name})
+				ts = append(ts, map[string]any{"line": e.Line, "name": e.Name, "name_hex": fmt.Sprintf("%x", e.Name)})
 			}
-			vfOracleFail("convert:"+what, what, map[string]any{"content": string(content), "tags": ts, "sections": fmt.Sprint(secs)})
+			vfOracleFail("convert:"+strings.SplitN(what, ":", 2)[0], what, map[string]any{"content": string(content), "content_hex": fmt.Sprintf("%x", content), "tags": ts, "sections": fmt.Sprint(secs)})
 		}
 		if err != nil {
 			fail("Convert returned an error")
 		}
 		if len(secs) != len(meta) {
 			fail("sections and metadata differ in length")
-		}
-		nls := []int{}
-		for k, c := range content {
-			if c == '\n' {
-				nls = append(nls, k)
-			}
 		}
 		for k, s := range secs {
 			if s.Start > s.End || int(s.End) > len(content) {
@@ -110,20 +184,10 @@ func TestVerifC37(t *testing.T) {
 			}
 		}
 		// ---- ShardBuilder.Add acceptance
-		b, berr := NewShardBuilder(&zoekt.Repository{Name: "r"})
-		if berr != nil {
-			t.Fatal(berr)
-		}
-		secs2 := append([]DocumentSection(nil), secs...)
-		meta2 := append([]*zoekt.Symbol(nil), meta...)
-		c2 := append([]byte(nil), content...)
-		for k := range c2 { // Add rejects nothing for NULs here, but keep content text-like
-			if c2[k] == 0 {
-				c2[k] = ' '
-			}
-		}
-		aerr := b.Add(Document{Name: "f.go", Content: c2, Symbols: secs2, SymbolsMetaData: meta2})
-		if aerr != nil {
+		aerr, apanic := vfC37Add(t, content, secs, meta)
+		if aerr != nil && namesValid {
+			// names that are not valid UTF-8 cannot reach Convert (JSON decoding) and are outside the property's
+			// domain; for them only model == implementation is checked below.
 			fail("ShardBuilder.Add rejects the derived sections: " + aerr.Error())
 		}
 		// ---- correspondence record
@@ -141,9 +205,311 @@ func TestVerifC37(t *testing.T) {
 		if len(ctags_) > 0 {
 			tl = cList(ctags_)
 		}
-		coq := cTuple(cBytes(content), tl, outs, cBool(aerr == nil))
-		class := []string{fmt.Sprintf("tags=%d", nt), fmt.Sprintf("secs=%d", len(secs))}
-		vfCase(coq, vfKey(string(content), ctags_), len(secs) >= 2,
-			class, map[string]any{"content": string(content), "tags": len(tags), "sections": fmt.Sprint(secs)})
+		coq := cApp("CConv", cBytes(content), tl, outs, cN(vfC37Verdict(aerr, apanic)))
+		sb := "secs<2"
+		if len(secs) >= 12 {
+			sb = "secs>=12"
+		} else if len(secs) >= 2 {
+			sb = "secs=2..11"
+		}
+		class := []string{"conv", fmt.Sprintf("conv:stream=%d", stream), "conv:" + sb, fmt.Sprintf("conv:accepted=%v", aerr == nil),
+			fmt.Sprintf("conv:content-valid=%v", utf8.Valid(content)), fmt.Sprintf("conv:names-valid=%v", namesValid)}
+		vfCase(coq, vfKey("conv", string(content), ctags_), len(secs) >= 2,
+			class, map[string]any{"kind": "conv", "content": string(content), "tags": len(tags), "sections": fmt.Sprint(secs), "add_err": fmt.Sprint(aerr)})
+	}
+
+	// ---- ShardBuilder.Add on arbitrary section lists (<= 8 sections: Go's sort.Sort is an insertion sort there,
+	// which is what the model's stable sort describes; verdicts on unsorted inputs with equal Starts depend on it)
+	for i := 0; i < n/2; i++ {
+		content := vfC37GenContent(r, r.Chance(40))
+		// rune boundaries of Go's decoding
+		var bounds []int
+		for p := 0; p < len(content); {
+			bounds = append(bounds, p)
+			_, sz := utf8.DecodeRune(content[p:])
+			p += sz
+		}
+		bounds = append(bounds, len(content))
+		ns := r.Intn(6)
+		var secs []DocumentSection
+		pos := 0
+		for j := 0; j < ns; j++ {
+			a := pos + r.Intn(4)
+			b := a + r.Intn(4)
+			if a >= len(bounds) {
+				a = len(bounds) - 1
+			}
+			if b >= len(bounds) {
+				b = len(bounds) - 1
+			}
+			pos = b
+			secs = append(secs, DocumentSection{Start: uint32(bounds[a]), End: uint32(bounds[b])})
+		}
+		mut := "none"
+		if len(secs) > 0 && r.Chance(60) {
+			k := r.Intn(len(secs))
+			switch r.Intn(8) {
+			case 0:
+				mut = "start+1"
+				secs[k].Start++
+			case 1:
+				mut = "end+1"
+				secs[k].End++
+			case 2:
+				mut = "end-1"
+				if secs[k].End > 0 {
+					secs[k].End--
+				}
+			case 3:
+				mut = "swap"
+				j := r.Intn(len(secs))
+				secs[k], secs[j] = secs[j], secs[k]
+			case 4:
+				mut = "start>end"
+				secs[k].Start, secs[k].End = secs[k].End, secs[k].Start
+			case 5:
+				mut = "past-end"
+				secs[k].End = uint32(len(content) + r.Intn(3))
+			case 6:
+				mut = "dup"
+				secs = append(secs, secs[k])
+			case 7:
+				mut = "at-end"
+				secs = append(secs, DocumentSection{Start: uint32(len(content)), End: uint32(len(content))})
+			}
+		}
+		meta := make([]*zoekt.Symbol, len(secs))
+		var ss []string
+		for k := range secs {
+			meta[k] = &zoekt.Symbol{Sym: "s"}
+			ss = append(ss, cTuple(cN(uint64(secs[k].Start)), cN(uint64(secs[k].End))))
+		}
+		aerr, apanic := vfC37Add(t, content, secs, meta)
+		kind := "ok"
+		if aerr != nil {
+			switch {
+			case apanic:
+				kind = "panic"
+			case strings.Contains(aerr.Error(), "no rune for section boundary"):
+				kind = "no-rune"
+			case strings.Contains(aerr.Error(), "overlap"):
+				kind = "overlap"
+			case strings.Contains(aerr.Error(), "past end"):
+				kind = "past-end"
+			default:
+				kind = "other"
+			}
+		}
+		sl := "(@nil (N * N))"
+		if len(ss) > 0 {
+			sl = cList(ss)
+		}
+		vfCase(cApp("CAdd", cBytes(content), sl, cN(vfC37Verdict(aerr, apanic))), vfKey("add", string(content), ss), len(secs) >= 1,
+			[]string{"add", "add:mut=" + mut, "add:verdict=" + kind},
+			map[string]any{"kind": "add", "content": string(content), "sections": fmt.Sprint(secs), "add_err": fmt.Sprint(aerr)})
+	}
+}
+
+// ---------------------------------------------------------------------------------------------------------
+// Tie of coq/Lib/Utf8.v to unicode/utf8.
+
+func vfC37Decode(s []byte) (items [][2]uint64) {
+	for len(s) > 0 {
+		rn, sz := utf8.DecodeRune(s)
+		items = append(items, [2]uint64{uint64(rn), uint64(sz)})
+		s = s[sz:]
+	}
+	return
+}
+
+// vfC37Row emits Go's decoding of prefix+[b] for every b in 0..255, run-length compressed (see CUtf8Row in
+// coq/Model/Ctags.v). The compression is re-expanded and compared with the observations before it is emitted.
+func vfC37Row(t *testing.T, prefix []byte, class string) {
+	obs := make([][][2]uint64, 256)
+	for b := 0; b < 256; b++ {
+		obs[b] = vfC37Decode(append(append([]byte(nil), prefix...), byte(b)))
+	}
+	type run struct {
+		lo, hi int
+		items  [][3]uint64 // rune at lo, slope, width
+	}
+	var runs []run
+	fits := func(ru run, b int) bool {
+		if len(obs[b]) != len(ru.items) {
+			return false
+		}
+		for k, it := range ru.items {
+			if obs[b][k][1] != it[2] || obs[b][k][0] != it[0]+it[1]*uint64(b-ru.lo) {
+				return false
+			}
+		}
+		return true
+	}
+	for b := 0; b < 256; {
+		ru := run{lo: b, hi: b}
+		for _, it := range obs[b] {
+			ru.items = append(ru.items, [3]uint64{it[0], 0, it[1]})
+		}
+		if b+1 < 256 && len(obs[b+1]) == len(obs[b]) { // slopes from the next observation
+			for k := range ru.items {
+				if d := obs[b+1][k][0] - obs[b][k][0]; d == 1 {
+					ru.items[k][1] = 1
+				}
+			}
+		}
+		for ru.hi+1 < 256 && fits(ru, ru.hi+1) {
+			ru.hi++
+		}
+		runs = append(runs, ru)
+		b = ru.hi + 1
+	}
+	var rs []string
+	next := 0
+	for _, ru := range runs {
+		if ru.lo != next {
+			t.Fatalf("vfC37Row: runs do not tile at %d", next)
+		}
+		for b := ru.lo; b <= ru.hi; b++ {
+			if !fits(ru, b) {
+				t.Fatalf("vfC37Row: run does not reproduce the observation at %x %x", prefix, b)
+			}
+		}
+		next = ru.hi + 1
+		var its []string
+		for _, it := range ru.items {
+			its = append(its, cTuple(cN(it[0]), cN(it[1]), cN(it[2])))
+		}
+		rs = append(rs, cTuple(cN(uint64(ru.lo)), cN(uint64(ru.hi)), cList(its)))
+	}
+	if next != 256 {
+		t.Fatalf("vfC37Row: runs end at %d", next)
+	}
+	vfCase(cApp("CUtf8Row", cBytes(prefix), cList(rs)), vfKey("utf8row", fmt.Sprintf("%x", prefix)), len(prefix) >= 1 && prefix[0] >= 0xC2,
+		[]string{"utf8", class}, map[string]any{"kind": "utf8row", "prefix_hex": fmt.Sprintf("%x", prefix), "runs": len(runs)})
+}
+
+func TestVerifC37Utf8(t *testing.T) {
+	r := vfNewRand(vfSeed() + 77)
+	n := vfN(300)
+	thorough := vfTier() == "thorough"
+	// exhaustive: all 1-byte and all 2-byte strings
+	vfC37Row(t, nil, "utf8:row1-exhaustive")
+	for b0 := 0; b0 < 256; b0++ {
+		vfC37Row(t, []byte{byte(b0)}, "utf8:row2-exhaustive")
+	}
+	// 3- and 4-byte strings: exhaustive in the last byte, earlier bytes from the boundary values of every
+	// lead class / accept range (thorough: every second byte for every lead >= 0xE0)
+	leads := []byte{0x7f, 0x80, 0xbf, 0xc0, 0xc1, 0xc2, 0xdf, 0xe0, 0xe1, 0xec, 0xed, 0xee, 0xef, 0xf0, 0xf1, 0xf3, 0xf4, 0xf5, 0xff}
+	seconds := []byte{0x00, 0x41, 0x7f, 0x80, 0x8f, 0x90, 0x9f, 0xa0, 0xbf, 0xc0, 0xff}
+	for _, b0 := range leads {
+		for _, b1 := range seconds {
+			if thorough || b0 >= 0xe0 || r.Chance(20) {
+				vfC37Row(t, []byte{b0, b1}, "utf8:row3")
+			}
+		}
+	}
+	if thorough {
+		for b0 := 0xe0; b0 <= 0xf7; b0++ {
+			for b1 := 0; b1 < 256; b1++ {
+				vfC37Row(t, []byte{byte(b0), byte(b1)}, "utf8:row3-all-second-bytes")
+			}
+		}
+	}
+	for _, b0 := range []byte{0xf0, 0xf1, 0xf3, 0xf4, 0xf5, 0xe0, 0xed} {
+		for _, b1 := range seconds {
+			for _, b2 := range []byte{0x7f, 0x80, 0xbf, 0xc0} {
+				if thorough || r.Chance(25) {
+					vfC37Row(t, []byte{b0, b1, b2}, "utf8:row4")
+				}
+			}
+		}
+	}
+	// random valid strings and mutations of them
+	special := []rune{0, 0x41, 0x7f, 0x80, 0x7ff, 0x800, 0xfff, 0x1000, 0xd7ff, 0xe000, 0xfffd, 0xffff, 0x10000, 0x3ffff, 0x40000, 0xfffff, 0x100000, 0x10ffff}
+	genRune := func() rune {
+		switch r.Intn(6) {
+		case 0:
+			return special[r.Intn(len(special))]
+		case 1:
+			return rune(r.Intn(0x80))
+		case 2:
+			return rune(0x80 + r.Intn(0x800-0x80))
+		case 3:
+			x := rune(0x800 + r.Intn(0x10000-0x800))
+			if x >= 0xd800 && x <= 0xdfff {
+				x = 0xd7ff
+			}
+			return x
+		case 4:
+			return rune(0x10000 + r.Intn(0x110000-0x10000))
+		}
+		return rune('a' + r.Intn(26))
+	}
+	for i := 0; i < n; i++ {
+		var s []byte
+		for k, m := 0, r.Intn(9); k < m; k++ {
+			s = utf8.AppendRune(s, genRune())
+		}
+		mut := "valid"
+		if r.Chance(65) && len(s) > 0 {
+			k := r.Intn(len(s))
+			switch r.Intn(6) {
+			case 0:
+				mut = "flip"
+				s[k] ^= byte(1 << r.Intn(8))
+			case 1:
+				mut = "truncate"
+				s = s[:k]
+			case 2:
+				mut = "insert-byte"
+				s = append(s[:k:k], append([]byte{byte(r.Intn(256))}, s[k:]...)...)
+			case 3:
+				mut = "insert-stray"
+				s = append(s[:k:k], append([]byte(r.Pick(vfC37Stray)), s[k:]...)...)
+			case 4:
+				mut = "delete-byte"
+				s = append(s[:k:k], s[k+1:]...)
+			case 5:
+				mut = "random-bytes"
+				for j := range s {
+					if r.Chance(50) {
+						s[j] = byte(r.Intn(256))
+					}
+				}
+			}
+		}
+		var dec []string
+		for _, it := range vfC37Decode(s) {
+			dec = append(dec, cTuple(cN(it[0]), cN(it[1])))
+		}
+		dl := "(@nil (N * N))"
+		if len(dec) > 0 {
+			dl = cList(dec)
+		}
+		reenc := []byte(string([]rune(string(s))))
+		vfCase(cApp("CUtf8", cBytes(s), dl, cBool(utf8.Valid(s)), cN(uint64(utf8.RuneCount(s))), cBytes(reenc)),
+			vfKey("utf8", fmt.Sprintf("%x", s)), len(s) >= 2,
+			[]string{"utf8", "utf8:str:" + mut, fmt.Sprintf("utf8:str:valid=%v", utf8.Valid(s))},
+			map[string]any{"kind": "utf8", "hex": fmt.Sprintf("%x", s)})
+	}
+	// encoder on arbitrary non-negative runes (surrogates and > MaxRune encode U+FFFD)
+	for i := 0; i < n/3+len(special); i++ {
+		var x rune
+		switch {
+		case i < len(special):
+			x = special[i]
+		case r.Chance(15):
+			x = rune(0xd800 + r.Intn(0x800))
+		case r.Chance(15):
+			x = rune(0x110000 + r.Intn(0x1000000))
+		case r.Chance(10):
+			x = []rune{0xd7ff, 0xd800, 0xdfff, 0xe000, 0x10ffff, 0x110000, 0x7fffffff}[r.Intn(7)]
+		default:
+			x = genRune()
+		}
+		enc := utf8.AppendRune(nil, x)
+		vfCase(cApp("CEnc", cN(uint64(x)), cBytes(enc)), vfKey("enc", x), x >= 0x80,
+			[]string{"utf8", fmt.Sprintf("utf8:enc:len=%d", len(enc)), fmt.Sprintf("utf8:enc:validrune=%v", utf8.ValidRune(x))},
+			map[string]any{"kind": "enc", "rune": x})
 	}
 }
